@@ -5,6 +5,9 @@ def _h(name, src, flags, **kw):
     d.update(kw)
     return d
 
+# -O0 -g0: the harnesses are template-heavy (8 wrappers x allocator types x libstdc++ twins); run time is negligible
+FAST = ["-O0", "-g0"]
+
 PROP = {
     "id": "C06",
     "level": "proof",
@@ -43,21 +46,17 @@ PROP = {
         "Momo.StdWrap.C06_umap_insert_or_assign",
     ],
     "harnesses": [
-        _h("c06_ord", "c06_ordered.cpp", ["-DVF_ALLOC=0"]),
-        _h("c06_ord_sa000", "c06_ordered.cpp", ["-DVF_ALLOC=1"]),
-        _h("c06_ord_sa111", "c06_ordered.cpp", ["-DVF_ALLOC=2"]),
-        _h("c06_uno", "c06_unordered.cpp", ["-DVF_OPEN=0", "-DVF_ALLOC=0"]),
-        _h("c06_uno_open", "c06_unordered.cpp", ["-DVF_OPEN=1", "-DVF_ALLOC=0"]),
-        _h("c06_uno_sa000", "c06_unordered.cpp", ["-DVF_OPEN=0", "-DVF_ALLOC=1"]),
-        _h("c06_uno_open_sa111", "c06_unordered.cpp", ["-DVF_OPEN=1", "-DVF_ALLOC=2"]),
-        _h("c06_alloc_vector", "c06_alloc.cpp", ["-DVF_PART=0"]),
-        _h("c06_alloc_set", "c06_alloc.cpp", ["-DVF_PART=1"]),
-        _h("c06_alloc_multiset", "c06_alloc.cpp", ["-DVF_PART=2"]),
-        _h("c06_alloc_map", "c06_alloc.cpp", ["-DVF_PART=3"]),
-        _h("c06_alloc_multimap", "c06_alloc.cpp", ["-DVF_PART=4"]),
-        _h("c06_alloc_uset", "c06_alloc.cpp", ["-DVF_PART=5"]),
-        _h("c06_alloc_umap", "c06_alloc.cpp", ["-DVF_PART=6"]),
-        _h("c06_alloc_ummap", "c06_alloc.cpp", ["-DVF_PART=7"]),
+        _h("c06_ord", "c06_ordered.cpp", FAST + ["-DVF_ALLOC=0"]),
+        _h("c06_ord_sa000", "c06_ordered.cpp", FAST + ["-DVF_ALLOC=1"]),
+        _h("c06_ord_sa111", "c06_ordered.cpp", FAST + ["-DVF_ALLOC=2"]),
+        _h("c06_uno", "c06_unordered.cpp", FAST + ["-DVF_OPEN=0", "-DVF_ALLOC=0"]),
+        _h("c06_uno_open", "c06_unordered.cpp", FAST + ["-DVF_OPEN=1", "-DVF_ALLOC=0"]),
+        _h("c06_uno_sa000", "c06_unordered.cpp", FAST + ["-DVF_OPEN=0", "-DVF_ALLOC=1"]),
+        _h("c06_uno_open_sa111", "c06_unordered.cpp", FAST + ["-DVF_OPEN=1", "-DVF_ALLOC=2"]),
+        _h("c06_alloc_vec_set", "c06_alloc.cpp", FAST + ["-DVF_KINDS=3"]),
+        _h("c06_alloc_mset_map", "c06_alloc.cpp", FAST + ["-DVF_KINDS=12"]),
+        _h("c06_alloc_mmap_uset", "c06_alloc.cpp", FAST + ["-DVF_KINDS=48"]),
+        _h("c06_alloc_umap_ummap", "c06_alloc.cpp", FAST + ["-DVF_KINDS=192"]),
     ],
     "rule": ("Differential runs: two containers + one node handle per side, 350-450 calls per run (thorough 700-900), drawn from insert / emplace / "
              "hinted insert and emplace (hints at lower/upper bound, their neighbours, begin, end, random) / try_emplace / insert_or_assign / "
